@@ -79,7 +79,7 @@ func init() {
 		},
 		N: func(tier string) int {
 			if tier == "quick" {
-				return 6000
+				return 30000
 			}
 			return 300000
 		},
